@@ -3,7 +3,7 @@
     invariant; so the reference router delivers them wherever the topology carries them. *)
 From Coq Require Import Lia ZifyBool ZifyNat ZifyN.
 From Sci Require Import Network.Model Network.Spec Network.Proofs Network.Proofs_Sound
-     Network.Proofs_C01 Network.Proofs_Deliver.
+     Network.Proofs_C01 Network.Proofs_Deliver Network.Proofs_Complete.
 Local Open Scope N_scope.
 Arguments N.add : simpl never. Arguments N.sub : simpl never. Arguments N.mul : simpl never.
 Arguments N.div : simpl never. Arguments N.modulo : simpl never. Arguments N.eqb : simpl never.
@@ -416,6 +416,49 @@ Proof.
   apply routed_path_delivers_aux; auto.
   - right. discriminate.
   - apply segs_route_auth; auto.
+Qed.
+
+(** ** ... and so does the SDK's own simulated router (after the repairs): no PEERING flag,
+    every segment at least two hops, so [sdk_complete_wrt_ref] applies *)
+Lemma packet_of_shape (g : @tseg key) (rest : list (@tseg key)) dst :
+  segs_two (g :: rest) ->
+  lens_two (p_lens (k_path (packet_of g rest dst)))
+  /\ sum_nat (p_lens (k_path (packet_of g rest dst))) = length (p_hops (k_path (packet_of g rest dst)))
+  /\ uses_peering (k_path (packet_of g rest dst)) = false.
+Proof.
+  intros T. unfold packet_of. cbn [k_path p_lens p_hops p_infos].
+  change (glen g :: map glen rest) with (map glen (g :: rest)).
+  change (ginit g :: map ginit rest) with (map ginit (g :: rest)).
+  change (all_hops g rest) with (flat_map hopsf (g :: rest)).
+  generalize (g :: rest) T. clear. intros l T. unfold lens_two, uses_peering, segs_two in *.
+  induction T as [|x l (d0 & d1 & r & Hx) T IH]; [repeat split; constructor|].
+  destruct IH as (I1 & I2 & I3). cbn [map flat_map existsb].
+  refine (conj _ (conj _ _)).
+  - constructor; [unfold glen; rewrite Hx; cbn; lia|exact I1].
+  - unfold sum_nat in *. cbn [fold_right]. rewrite app_length, I2. unfold hopsf, glen. rewrite map_length. reflexivity.
+  - cbn. exact I3.
+Qed.
+
+Theorem combined_delivers_sdk dst (b : buse) (bs : list buse) pk :
+  wf_topo t = true ->
+  Forall (fun b => (S (bu_k b) < length (bu_us b))%nat) (b :: bs) ->
+  assemble dst (map use_of (b :: bs)) = Some pk ->
+  exists d r, g_hops (tseg_of b) = d :: r /\
+    (route_topo t now (tseg_of b) d r (map tseg_of bs) dst ->
+     exists tr pk' pre il,
+       sdk_sim mac (length r + S (fuel_rest (map tseg_of bs))) t now (d_ia d) 0 pk = (tr, EndVerdict, pk')
+       /\ tr = pre ++ [mkStep dst il ALocal]).
+Proof.
+  intros W F Ha. destruct (combined_delivers dst b bs pk F Ha) as (d & r & Hg & D).
+  exists d, r. split; [exact Hg|]. intros RT. destruct (D RT) as (rtr & pk' & R & _).
+  rewrite (assemble_packet_of dst bs b F) in Ha. inversion Ha; subst pk; clear Ha.
+  assert (T : segs_two (tseg_of b :: map tseg_of bs)).
+  { change (tseg_of b :: map tseg_of bs) with (map tseg_of (b :: bs)).
+    unfold segs_two. apply Forall_forall. intros g Hin. apply in_map_iff in Hin. destruct Hin as (x & <- & Hx).
+    rewrite Forall_forall in F. destruct (bu_facts x (F x Hx)) as (d0 & d1 & r0 & Hg0 & _). eauto. }
+  destruct (packet_of_shape (tseg_of b) (map tseg_of bs) dst T) as (S1 & S2 & S3).
+  destruct (ref_sim_complete mac _ t now W _ _ _ _ _ _ S1 S2 S3 R) as (tr & Hs & _ & pre & il & Et).
+  exists tr, pk', pre, il. split; assumption.
 Qed.
 
 End B.
